@@ -36,3 +36,12 @@ static int ref_edge(const int *g, int sc, const int *sp, int sf, int dc, const i
 static int ref_indeg(const int *g, int c, const int *p, int f) { (void)g; (void)f; return c == REF_CLS_PING ? (p[0] == 0 ? 0 : 1) : 1; }
 static int ref_from_memory(const int *g, int c, const int *p, int f, int *co)
 { (void)g; (void)f; if (c == REF_CLS_PING && p[0] == 0) { co[0] = p[0]; return 1; } return 3; }
+
+/* run the real generated internal_init of every class (sets the key min/range fields, repositories) */
+static __parsec_pingpong_PING_task_t ref_init_task_PING;
+static __parsec_pingpong_PONG_task_t ref_init_task_PONG;
+static void ref_init_all(REF_TP_T *tp)
+{
+    ref_init_task_PING.taskpool = (parsec_taskpool_t *)tp; pingpong_PING_internal_init(NULL, &ref_init_task_PING);
+    ref_init_task_PONG.taskpool = (parsec_taskpool_t *)tp; pingpong_PONG_internal_init(NULL, &ref_init_task_PONG);
+}
